@@ -52,6 +52,7 @@ def build_env(ctx: ShardCtx, res: ShardResult):
         from dlv import synth
         synth.add_synthetic_streams(env, ctx, res)
         synth.add_structural_streams(env, ctx, res)
+        synth.add_offset_start_stream(env, res)      # decode times that start at 100 s
     except ImportError:
         pass
     index = StoredIndex(env)
